@@ -307,6 +307,28 @@ class Gen:
         a = self.small(-2, 3)
         return ["io_setslice", c, wh, a, a + self.rng.randint(0, 2), self.values_list(self.cont_graph(c), wh == "inputs", 2)]
 
+    def _io_setslice3(self):
+        c, wh = self.any_c(), self._which()
+        n = self._io_len(c, wh)
+        step = self.rng.choice([-1, -1, 2, -2, 3])
+        a = self.rng.choice([None, None, 0, 1, -1, n])
+        b = self.rng.choice([None, None, 0, 1, -1, n])
+        conts = self.w.containers()
+        o = conts[c % len(conts)]
+        sel = len(list(o.inputs if wh == "inputs" else o.outputs)[a:b:step])
+        k = sel if not self.h() else max(0, sel + self.rng.choice([-1, 1, 2]))
+        g = self.cont_graph(c)
+        vs = [self.v_for_graph(g, wh == "inputs") if self.rng.random() < 0.7 else self._io_member(c, wh) for _ in range(k)]
+        if vs and self.h():
+            vs[self.rng.randrange(len(vs))] = self.any_v()
+        return ["io_setslice3", c, wh, a, b, step, vs]
+
+    def _io_delslice3(self):
+        c, wh = self.any_c(), self._which()
+        n = self._io_len(c, wh)
+        return ["io_delslice3", c, wh, self.rng.choice([None, 0, 1, -1, n]), self.rng.choice([None, 0, -1, n]),
+                self.rng.choice([-1, 2, -2])]
+
     def _io_del(self):
         c, wh = self.any_c(), self._which()
         return ["io_del", c, wh, self._io_index(c, wh)]
@@ -431,7 +453,7 @@ DEFAULT_WEIGHTS = {
     "append": 4, "extend": 3, "ins_before": 3, "ins_after": 3, "remove": 4, "sort": 1.5, "n_prepend": 1, "n_append": 1,
     "rin": 5, "rsz_in": 2, "rsz_out": 3, "rauw": 3, "c_rauw": 2, "c_rnv": 1.5,
     "io_append": 3, "io_extend": 3, "io_insert": 3, "io_pop": 2.5, "io_remove": 2.5, "io_clear": 0.8, "io_set": 3,
-    "io_setslice": 2.5, "io_del": 2.5, "io_delslice": 2, "io_reverse": 0.7, "io_iadd": 0.5,
+    "io_setslice": 2.5, "io_setslice3": 1.6, "io_delslice3": 1.0, "io_del": 2.5, "io_delslice": 2, "io_reverse": 0.7, "io_iadd": 0.5,
     "in_set": 3, "in_add": 3, "in_reg": 2, "in_del": 2, "in_pop": 2, "in_popitem": 1, "in_clear": 0.6, "in_update": 2,
     "in_setdefault": 1.5,
     "v_name": 4, "n_name": 1, "c_rename": 2.5,
